@@ -819,6 +819,21 @@ fn sys_member_invite_3pid(g: &mut Gen<'_>, v: u32) {
     tpes.push(("pks-item-null", Some(cobj(json!({"public_key": pk, "public_keys": [{"public_key": null}]})))));
     tpes.push(("pks-seq", Some(cobj(json!({"public_keys": [[pk]]})))));
     tpes.push(("pks-seq-bad", Some(cobj(json!({"public_key": pk, "public_keys": [[1]]})))));
+    // the same with the empty token (state key ""), correctly signed, against every state shape
+    for (_, tpe) in &tpes {
+        for tpe_sender in [ALICE, CREATOR] {
+            for at in ["", "tok"] {
+                let mut c = Case::base(v);
+                c.set_member(ALICE, 1);
+                c.set_member(BOB, 0);
+                c.set_content("m.room.third_party_invite", at, tpe_sender, tpe.clone());
+                let mut content = cobj(json!({"membership": "invite"}));
+                content.insert("third_party_invite".into(), wrap(&signed_object(BOB, "")));
+                c.ev = c.mk("m.room.member", ALICE, Some(BOB), content);
+                g.emit("sys-invite-3pid-empty-token", &c, 1);
+            }
+        }
+    }
     for (_, tpi) in &tpis {
         for (_, tpe) in &tpes {
             for tm in [0usize, 4, 1, 7] {
@@ -1355,12 +1370,14 @@ fn rand_case(r: &mut Rng) -> Case {
                 content.insert("join_authorised_via_users_server".into(), if r.chance(4, 5) { cj(json!(*r.pick(&users))) } else { gen_json(r, 1) });
             }
             if r.chance(1, 8) {
-                let s = signed_object(target, "tok");
+                // the token is the state key of the m.room.third_party_invite event: also the empty one
+                let tok = *r.pick(&["tok", "tok", ""]);
+                let s = signed_object(target, tok);
                 let mut t = CanonicalJsonObject::new();
                 t.insert("signed".into(), CanonicalJsonValue::Object(s));
                 content.insert("third_party_invite".into(), if r.chance(3, 4) { CanonicalJsonValue::Object(t) } else { gen_json(r, 2) });
                 let pk = Base64::<Standard, _>::new(id_server_key().public_key().to_vec()).encode();
-                c.set_content("m.room.third_party_invite", "tok", *r.pick(&users), Some(cobj(json!({"public_key": pk}))));
+                c.set_content("m.room.third_party_invite", tok, *r.pick(&users), Some(cobj(json!({"public_key": pk}))));
             }
             let who = if r.chance(1, 2) { sender } else { target };
             c.mk("m.room.member", sender, Some(who), content)
